@@ -844,11 +844,12 @@ func init() {
 	Register(&Scenario{Prop: "C05", Name: "never-settling-consumer", Setup: gcSetup(c05d), Body: gcBody(c05d), Real: gcReal, Stubs: gcStubs, Weight: 1})
 
 	c11 := gcOpts{prop: "C11", persistent: 1, lateSubs: true, fine: true}
-	Register(&Scenario{Prop: "C11", Name: "persistent-replay", Setup: gcSetup(c11), Body: gcBody(c11), Real: gcReal, Stubs: gcStubs, Weight: 2})
+	Register(&Scenario{Prop: "C11", Name: "persistent-replay", Setup: gcSetup(c11), Body: gcBody(c11), Real: gcReal, Stubs: gcStubs, Weight: 1000})
 	// sibling subscriptions that come and go (cancelled ones are exempt) must not disturb the exactly-once replay of the others
 	// subscribers that nack (a few times) before they ack: every message is still acked exactly once by every subscription
 	c11c := gcOpts{prop: "C11", persistent: 1, lateSubs: true, fine: true, nacks: true}
-	Register(&Scenario{Prop: "C11", Name: "persistent-replay-with-nacks", Setup: gcSetup(c11c), Body: gcBody(c11c), Real: gcReal, Stubs: gcStubs, Weight: 1})
+	Register(&Scenario{Prop: "C11", Name: "persistent-replay-with-nacks", Setup: gcSetup(c11c), Body: gcBody(c11c), Real: gcReal, Stubs: gcStubs, Weight: 500})
 	c11b := gcOpts{prop: "C11", persistent: 1, lateSubs: true, fine: true, cancels: true, subChurn: true}
-	Register(&Scenario{Prop: "C11", Name: "persistent-replay-with-churn", Setup: gcSetup(c11b), Body: gcBody(c11b), Real: gcReal, Stubs: gcStubs, Weight: 1})
+	Register(&Scenario{Prop: "C11", Name: "persistent-replay-with-churn", Setup: gcSetup(c11b), Body: gcBody(c11b), Real: gcReal, Stubs: gcStubs, Weight: 500})
+	// (weights: a long-history run (c11big.go) costs about as much as a thousand of these; it gets about a seventh of the time)
 }
